@@ -206,6 +206,7 @@ func (m *Machine) Explore(fn *ssa.Function) *Result {
 		m.i.panicStack = ""
 		m.i.locks = newLockState()
 		m.i.traceSum, m.i.traceN, m.i.noSample = 0, 0, false
+		m.i.callDepth = 0
 		m.resetGlobals()
 		nviol := len(violations)
 		outcome := m.runOnce(fn)
@@ -229,6 +230,9 @@ func (m *Machine) Explore(fn *ssa.Function) *Result {
 			res.Paths--
 		case unsupported:
 			res.Unsupported[string(o)]++
+		case fatalError:
+			res.Panics[firstLine(string(o))]++
+			m.recordCrash(string(o))
 		case targetPanic:
 			res.Panics[firstLine(toString(o.v))]++
 			m.recordCrash(toString(o.v))
